@@ -225,6 +225,11 @@ MIRSYM("tree_steps_under_faults", ["C10"],
        _TREE_BOUNDS + "; cancel point and fault point over the whole u32 range", _lazy("e2_tree", "faults_obligation"),
        site="BuildOption::cancelled / TmpNodes::put")
 
+MIRSYM("change_metric_step", ["C18", "C07"],
+       "prepare_changing_distance over a constant-shape database: every item key kept and re-encoded as a valid leaf of the new metric at the declared dimension; forest and metadata of the index removed; pending marks and every entry of other indexes untouched; same metric => nothing written",
+       "database: index 7 = {metadata, version, 1 updated mark, 2 tree nodes, items 1 and u32::MAX} + neighbours 6 and 8; dimension 1..=130 symbolic; codec transitions f32->f32, f32->quantised, quantised->f32, quantised->quantised, identity; vectors abstracted to (codec, logical length)",
+       _lazy("e2_metric"), site="Writer::prepare_changing_distance")
+
 PROPS = {}
 
 KANI_NOTE = ("Trusted: Kani/CBMC and rustc MIR semantics; the environment models in /verif/models (heed store, "
@@ -318,8 +323,8 @@ P("C12", "Binary quantisation keeps exactly the sign pattern and its Hamming geo
   outside_claim=["NEON paths", "dims > 70 (the word loop is uniform)"],
   assumptions=[])
 P("C18", "Changing the metric keeps the items and forces a rebuild",
-  "bounded model checking (Kani/CBMC) of prepare_changing_distance over a constant-shape model database with symbolic vectors",
-  "Bounded model checking of prepare_changing_distance for representative metric pairs covering the four codec transitions and the identity, with a whole-store frame condition.",
+  "symbolic execution of the rustc MIR of prepare_changing_distance / clear_tree_nodes (z3) over a constant-shape key-value database with vectors abstracted to (codec, length); a Kani harness for the identity case",
+  "Bounded symbolic execution of the real MIR for the four codec transitions and the identity, dimension symbolic in 1..=130, with a whole-database frame condition (the whole-function Kani harnesses gave no verdict in 15 min and are parked).",
   stubs_and_models=STD_STUBS + MODELS + ["stub _mm_blendv_ps lane-wise (quantised sources)"],
   functions_encoded=["Writer::prepare_changing_distance", "writer::clear_tree_nodes", "Writer::need_build", "UnalignedVector::to_vec/from_vec", "Distance::new_header"],
   bounds={"database": "constant shape, 6 entries, dim 3", "pairs": "E->M, E->Dot, Dot->E, E->BQE, BQE->E, BQE->BQM, E->E"},
@@ -379,6 +384,7 @@ P("C10", "A build that fails or is cancelled reports it and can be rolled back",
   bounds={"forest": "as C01", "cancel/fault point": "any u32"},
   outside_claim=["whole-build result under faults", "abort/rollback (LMDB)", "temp files and descriptors (OS)", "LMDB MapFull at arbitrary writes of build()"],
   assumptions=["monotone cancellation callback"])
+claim("C18")
 claim("C10")
 claim("C02")
 claim("C04")
